@@ -27,6 +27,9 @@ mod session;
 mod types;
 mod version;
 
+#[cfg(feature = "verif-hooks")]
+pub mod verif;
+
 pub use self::config::MqttServiceConfig;
 pub use self::control::{Control, Reason};
 pub use self::error::{HandshakeError, MqttError, ProtocolError};
